@@ -605,6 +605,9 @@ func c8run(r *report.Run) {
 	}
 	exec := func() {
 		par.Do(len(batches), func(k int) {
+			if r.Violations() > 200 {
+				return // enough: a change that breaks scoping at large makes every failing program slow (error paths)
+			}
 			b := batches[k]
 			got := c8goat(b.pkg, b.src, len(b.items))
 			for i, it := range b.items {
@@ -626,6 +629,10 @@ func c8run(r *report.Run) {
 	}
 	total := 0
 	for size := 1; size <= maxN; size++ {
+		if r.Violations() > 200 {
+			r.NotExhaustive("stopped early: more than 200 violations")
+			break
+		}
 		if r.Expired() {
 			r.NotExhaustive(fmt.Sprintf("internal deadline reached before layer %d", size))
 			break
